@@ -435,6 +435,8 @@ def classify(case, pipe, got_tree=None, want_tree=None):
                 every.extend(x for x in (nd["taxon"], nd["label"]) if x)
         if any(ch in '"\\&<\t' or ord(ch) > 127 for l in every + list(case["ns"]) for ch in l):
             return "nexml-label-attribute-escaping"
+    if pipe.startswith("nexml") and not case["ns"]:
+        return "nexml-empty-namespace"
     if pipe == "nexus-translate" and not case["ns"]:
         return "nexus-translate-empty-namespace"
     labels = []
